@@ -1,43 +1,70 @@
 #!/venv/bin/python
-"""Run every quick check against every seeded change (tree given by EDGEGRAPH_REPO, default a fresh worktree).
-Writes seeded/crossmatrix.json: seed -> {pid: "V" (violation with failing input) | "N" (no-failing-input-found) | "-"}."""
+"""tools/crossmatrix.py [seed names...] — run every quick check against every seeded change.
+Four slots in parallel, each with its own scratch copy of /verif (own coq build, own _work) and its own scratch worktree of
+/repo (EDGEGRAPH_REPO); /repo itself is never touched.  Writes seeded/crossmatrix.json:
+seed -> {pid: "V" (violation with a failing input) | "N" (no-failing-input-found) | "-"}, plus a "(clean tree)" row."""
 import json
 import os
 import subprocess
 import sys
+from concurrent.futures import ThreadPoolExecutor
 from pathlib import Path
 
-HERE = Path(__file__).resolve().parent.parent
-repo = os.environ.get("EDGEGRAPH_REPO")
-if not repo:
-    repo = "/tmp/xrepo"
-    subprocess.run(f"git -C /repo worktree remove --force {repo}", shell=True, stderr=subprocess.DEVNULL)
-    subprocess.run(f"git -C /repo worktree add -q --detach {repo} HEAD", shell=True, check=True)
-    os.environ["EDGEGRAPH_REPO"] = repo
-seeds = sorted(p for p in (Path("/verif/seeded")).iterdir() if (p / "patch.diff").exists())
-only = sys.argv[1:]
-pids = ["C%02d" % i for i in range(1, 21)]
-out = {}
-dst = HERE / "seeded" / "crossmatrix.json"
-for sd in seeds:
-    if only and sd.name not in only:
-        continue
-    subprocess.run(f"git -C {repo} checkout -q -- . && git -C {repo} apply {sd / 'patch.diff'}", shell=True, check=True)
+SLOTS = 4
+PIDS = ["C%02d" % i for i in range(1, 21)]
+DST = Path("/verif/seeded/crossmatrix.json")
+
+
+def sh(cmd, cwd=None, env=None):
+    p = subprocess.run(cmd, shell=True, cwd=cwd, env=env, stdout=subprocess.PIPE, stderr=subprocess.STDOUT, text=True)
+    return p.returncode, p.stdout
+
+
+def run_checks(vc, rp):
+    env = dict(os.environ, EDGEGRAPH_REPO=rp)
     row = {}
-    for pid in pids:
-        p = subprocess.run(["./check", pid, "quick"], cwd=str(HERE), stdout=subprocess.PIPE, stderr=subprocess.STDOUT, text=True, env=os.environ)
-        v = [l for l in p.stdout.splitlines() if l.startswith("VIOLATION")]
-        row[pid] = "-" if not v else ("N" if all("no-failing-input-found" in l for l in v) else "V")
-    out[sd.name] = row
-    subprocess.run(f"git -C {repo} checkout -q -- .", shell=True)
-    dst.parent.mkdir(exist_ok=True)
-    dst.write_text(json.dumps(out, indent=1))
-    print(sd.name, "".join(row[p] for p in pids), flush=True)
-# clean tree last: no check may alarm
-row = {}
-for pid in pids:
-    p = subprocess.run(["./check", pid, "quick"], cwd=str(HERE), stdout=subprocess.PIPE, stderr=subprocess.STDOUT, text=True, env=os.environ)
-    row[pid] = "-" if "VIOLATION" not in p.stdout and p.returncode == 0 else "ALARM"
-out["(clean tree)"] = row
-dst.write_text(json.dumps(out, indent=1))
-print("clean", row)
+    for pid in PIDS:
+        rc, o = sh(f"./check {pid} quick", cwd=vc, env=env)
+        v = [l for l in o.splitlines() if l.startswith("VIOLATION")]
+        row[pid] = ("-" if rc == 0 else "X") if not v else ("N" if all("no-failing-input-found" in l for l in v) else "V")
+    return row
+
+
+def work(args):
+    slot, seeds = args
+    vc, rp = f"/tmp/xvc-{slot}", f"/tmp/xrepo-{slot}"
+    sh(f"git -C /repo worktree remove --force {rp}; rm -rf {vc}; mkdir -p {vc} && rsync -a --exclude _work --exclude .git --exclude replays /verif/ {vc}/")
+    sh(f"git -C /repo worktree add -q --detach {rp} HEAD")
+    out = {}
+    try:
+        for sd in seeds:
+            sh(f"git -C {rp} checkout -q -- . && git -C {rp} clean -fdq")
+            if sd is None:
+                out["(clean tree)"] = run_checks(vc, rp)
+                print("(clean tree)", "".join(out["(clean tree)"][p] for p in PIDS), flush=True)
+                continue
+            rc, o = sh(f"git -C {rp} apply {sd / 'patch.diff'}")
+            if rc != 0:
+                out[sd.name] = {"error": o[-200:]}
+                continue
+            out[sd.name] = run_checks(vc, rp)
+            print(sd.name, "".join(out[sd.name][p] for p in PIDS), flush=True)
+    finally:
+        sh(f"git -C /repo worktree remove --force {rp}; rm -rf {vc}")
+    return out
+
+
+def main():
+    only = sys.argv[1:]
+    seeds = sorted(p for p in Path("/verif/seeded").iterdir() if (p / "patch.diff").exists() and (not only or p.name in only))
+    groups = [(k, seeds[k::SLOTS]) for k in range(SLOTS)]
+    groups[0] = (0, [None] + groups[0][1])          # the unchanged tree first: no check may alarm
+    res = json.loads(DST.read_text()) if (only and DST.exists()) else {}
+    with ThreadPoolExecutor(max_workers=SLOTS) as ex:
+        for r in ex.map(work, groups):
+            res.update(r)
+    DST.write_text(json.dumps(res, indent=1, sort_keys=True))
+
+
+if __name__ == "__main__":
+    main()
